@@ -1294,6 +1294,8 @@ class Agent(dbus.service.Object):
             data_size_encsize = len(cbor2.dumps(item.total_length))
             # Size left for fragment data
             remain_size = mtu - (ext_base_encsize - 1 + data_size_encsize)
+            if remain_size <= 0:
+                raise ValueError('MTU {} too small to segment transfer {}'.format(mtu, item.transfer_id))
 
             frag_offset = 0
             while frag_offset < len(data):
@@ -1308,9 +1310,7 @@ class Agent(dbus.service.Object):
                 frag_offset += remain_size
                 segments.append(cbor2.dumps(ext))
 
-        for seg in segments:
-            self.__logger.debug('Sending datagram size %d', len(seg))
-            yield seg
+        return iter(segments)
 
     def _process_tx_queue(self):
         ''' Perform the next TX bundle if possible.
@@ -1415,7 +1415,12 @@ class Agent(dbus.service.Object):
 
         if item.transfer_id is not None:
             # only allow fragmentation of transfers
-            tx_item.dgram_iter = self._send_transfer(item)
+            try:
+                tx_item.dgram_iter = self._send_transfer(item)
+            except ValueError as err:
+                self.__logger.error('Failed to send transfer: %s', err)
+                self.send_bundle_finished(str(item.transfer_id), item.total_length, 'failed')
+                return bool(self._tx_queue)
         else:
             tx_item.dgram_iter = iter([item.file.read()])
 
